@@ -1,0 +1,95 @@
+//go:build verif
+
+// Contracts for the bmverif deductive checker (comment-only; compiled only under -tags verif).
+// Property C02, simulator side: one tick of bondmachine.VM.Step moves data/valid forward and received backward
+// exactly along the machine's Links, and an output's received line is the conjunction of the received lines of all
+// inputs bonded to it. (The generated top-level netlist and HDL/simulation stream equality are not decided.)
+
+package bondmachine
+
+//@ props C02 C04
+
+// the tick's own arrays are pairwise distinct (VM.Init allocates each with its own make)
+//@ pred sepSim(vm *VM) :=
+//@      arr(vm.Inputs_regs) != arr(vm.Outputs_regs) && arr(vm.Inputs_regs) != arr(vm.Internal_inputs_regs) && arr(vm.Inputs_regs) != arr(vm.Internal_outputs_regs) &&
+//@      arr(vm.Outputs_regs) != arr(vm.Internal_inputs_regs) && arr(vm.Outputs_regs) != arr(vm.Internal_outputs_regs) &&
+//@      arr(vm.Internal_inputs_regs) != arr(vm.Internal_outputs_regs) &&
+//@      arr(vm.InputsValid) != arr(vm.OutputsValid) && arr(vm.InputsValid) != arr(vm.InternalInputsValid) && arr(vm.InputsValid) != arr(vm.InternalOutputsValid) &&
+//@      arr(vm.InputsValid) != arr(vm.InputsRecv) && arr(vm.InputsValid) != arr(vm.OutputsRecv) && arr(vm.InputsValid) != arr(vm.InternalInputsRecv) && arr(vm.InputsValid) != arr(vm.InternalOutputsRecv) &&
+//@      arr(vm.OutputsValid) != arr(vm.InternalInputsValid) && arr(vm.OutputsValid) != arr(vm.InternalOutputsValid) &&
+//@      arr(vm.OutputsValid) != arr(vm.InputsRecv) && arr(vm.OutputsValid) != arr(vm.OutputsRecv) && arr(vm.OutputsValid) != arr(vm.InternalInputsRecv) && arr(vm.OutputsValid) != arr(vm.InternalOutputsRecv) &&
+//@      arr(vm.InternalInputsValid) != arr(vm.InternalOutputsValid) &&
+//@      arr(vm.InternalInputsValid) != arr(vm.InputsRecv) && arr(vm.InternalInputsValid) != arr(vm.OutputsRecv) && arr(vm.InternalInputsValid) != arr(vm.InternalInputsRecv) && arr(vm.InternalInputsValid) != arr(vm.InternalOutputsRecv) &&
+//@      arr(vm.InternalOutputsValid) != arr(vm.InputsRecv) && arr(vm.InternalOutputsValid) != arr(vm.OutputsRecv) && arr(vm.InternalOutputsValid) != arr(vm.InternalInputsRecv) && arr(vm.InternalOutputsValid) != arr(vm.InternalOutputsRecv) &&
+//@      arr(vm.InputsRecv) != arr(vm.OutputsRecv) && arr(vm.InputsRecv) != arr(vm.InternalInputsRecv) && arr(vm.InputsRecv) != arr(vm.InternalOutputsRecv) &&
+//@      arr(vm.OutputsRecv) != arr(vm.InternalInputsRecv) && arr(vm.OutputsRecv) != arr(vm.InternalOutputsRecv) &&
+//@      arr(vm.InternalInputsRecv) != arr(vm.InternalOutputsRecv)
+
+// shapes: every register/flag array mirrors the endpoint list it belongs to
+//@ pred shapeSim(vm *VM) := vm != nil && vm.Bmach != nil &&
+//@      len(vm.Internal_inputs_regs) == len(vm.Bmach.Internal_inputs) && len(vm.InternalInputsValid) == len(vm.Bmach.Internal_inputs) && len(vm.InternalInputsRecv) == len(vm.Bmach.Internal_inputs) &&
+//@      len(vm.Internal_outputs_regs) == len(vm.Bmach.Internal_outputs) && len(vm.InternalOutputsValid) == len(vm.Bmach.Internal_outputs) && len(vm.InternalOutputsRecv) == len(vm.Bmach.Internal_outputs) &&
+//@      len(vm.Bmach.Links) == len(vm.Bmach.Internal_inputs) &&
+//@      (forall i int :: 0 <= i && i < len(vm.Bmach.Links) ==> vm.Bmach.Links[i] == -1 || (0 <= vm.Bmach.Links[i] && vm.Bmach.Links[i] < len(vm.Bmach.Internal_outputs)))
+
+// received line of internal output j when link slots [0, n) have been folded in
+//@ pred fedBy(vm *VM, j int, n int) := exists k int :: 0 <= k && k < n && vm.Bmach.Links[k] == j
+//@ pred allRecv(vm *VM, j int, n int) := forall k int :: 0 <= k && k < n && vm.Bmach.Links[k] == j ==> vm.InternalInputsRecv[k]
+
+//@ func (vm *VM) Step(sc *SimConfig) (string, error)
+//@   requires shapeSim(vm) && sepSim(vm)
+//@   ensures links_data: forall i int :: 0 <= i && i < len(vm.Bmach.Links) && vm.Bmach.Links[i] != -1 ==>
+//@             vm.Internal_inputs_regs[i] == vm.Internal_outputs_regs[vm.Bmach.Links[i]] &&
+//@             vm.InternalInputsValid[i] == vm.InternalOutputsValid[vm.Bmach.Links[i]]
+//@   ensures recv_and1: forall j int, k int :: 0 <= j && j < len(vm.Bmach.Internal_outputs) && vm.InternalOutputsRecv[j] &&
+//@             0 <= k && k < len(vm.Bmach.Links) && vm.Bmach.Links[k] == j ==> vm.InternalInputsRecv[k]
+//@   ensures recv_and2: forall j int :: 0 <= j && j < len(vm.Bmach.Internal_outputs) && vm.InternalOutputsRecv[j] ==> fedBy(vm, j, len(vm.Bmach.Links))
+//@   ensures recv_and0: forall j int :: 0 <= j && j < len(vm.Bmach.Internal_outputs) && !vm.InternalOutputsRecv[j] ==>
+//@             (!fedBy(vm, j, len(vm.Bmach.Links)) || (exists k int :: 0 <= k && k < len(vm.Bmach.Links) && vm.Bmach.Links[k] == j && !vm.InternalInputsRecv[k]))
+//@   ensures tick: vm.abs_tick == old(vm.abs_tick) + 1 || vm.abs_tick == 0
+//@   sync preserves vm.*, vm.Bmach.*, vm.Bmach.Links[*], vm.Bmach.Internal_inputs[*], vm.Bmach.Internal_outputs[*], vm.Processors[*],
+//@        vm.Inputs_regs[*], vm.Outputs_regs[*], vm.Internal_inputs_regs[*], vm.Internal_outputs_regs[*],
+//@        vm.InputsValid[*], vm.OutputsValid[*], vm.InternalInputsValid[*], vm.InternalOutputsValid[*],
+//@        vm.InputsRecv[*], vm.OutputsRecv[*], vm.InternalInputsRecv[*], vm.InternalOutputsRecv[*]
+//@   frameonly
+//@   loop 5: modifies dataRecv[*]
+//@   loop 5: invariant keys1: forall j int :: haskey(dataRecv, j) ==> fedBy(vm, j, i)
+//@   loop 5: invariant keys3: forall j int :: haskey(dataRecv, j) ==> j != -1
+//@   loop 5: invariant keys2: forall k int :: 0 <= k && k < i && vm.Bmach.Links[k] != -1 ==> haskey(dataRecv, vm.Bmach.Links[k])
+//@   loop 5: invariant vals1: forall j int, k int :: haskey(dataRecv, j) && dataRecv[j] && 0 <= k && k < i && vm.Bmach.Links[k] == j ==> vm.InternalInputsRecv[k]
+//@   loop 5: invariant vals0: forall j int :: haskey(dataRecv, j) && !dataRecv[j] ==> (exists k int :: 0 <= k && k < i && vm.Bmach.Links[k] == j && !vm.InternalInputsRecv[k])
+//@   loop 6: modifies vm.InternalOutputsRecv[*]
+//@   loop 6: invariant done1: forall j int, k int :: 0 <= j && j < $i && vm.InternalOutputsRecv[j] && 0 <= k && k < len(vm.Bmach.Links) && vm.Bmach.Links[k] == j ==> vm.InternalInputsRecv[k]
+//@   loop 6: invariant done2: forall j int :: 0 <= j && j < $i && vm.InternalOutputsRecv[j] ==> fedBy(vm, j, len(vm.Bmach.Links))
+//@   loop 6: invariant done0: forall j int :: 0 <= j && j < $i && !vm.InternalOutputsRecv[j] ==>
+//@             (!fedBy(vm, j, len(vm.Bmach.Links)) || (exists k int :: 0 <= k && k < len(vm.Bmach.Links) && vm.Bmach.Links[k] == j && !vm.InternalInputsRecv[k]))
+
+// what is handed to the processors before the compute phase: the received line of every internal output is the conjunction over its consumers
+//@   loop 7: entry pre_recv1: forall j int, k int :: 0 <= j && j < len(vm.Bmach.Internal_outputs) && vm.InternalOutputsRecv[j] &&
+//@             0 <= k && k < len(vm.Bmach.Links) && vm.Bmach.Links[k] == j ==> vm.InternalInputsRecv[k]
+//@   loop 7: entry pre_recv2: forall j int :: 0 <= j && j < len(vm.Bmach.Internal_outputs) && vm.InternalOutputsRecv[j] ==> fedBy(vm, j, len(vm.Bmach.Links))
+//@   loop 7: entry pre_recv0: forall j int :: 0 <= j && j < len(vm.Bmach.Internal_outputs) && !vm.InternalOutputsRecv[j] ==>
+//@             (!fedBy(vm, j, len(vm.Bmach.Links)) || (exists k int :: 0 <= k && k < len(vm.Bmach.Links) && vm.Bmach.Links[k] == j && !vm.InternalInputsRecv[k]))
+//@   loop 10: modifies vm.Internal_outputs_regs[*], vm.InternalOutputsValid[*]
+//@   loop 11: modifies vm.Internal_inputs_regs[*], vm.InternalInputsValid[*]
+//@   loop 11: invariant done: forall k int :: 0 <= k && k < i && vm.Bmach.Links[k] != -1 ==>
+//@             vm.Internal_inputs_regs[k] == vm.Internal_outputs_regs[vm.Bmach.Links[k]] &&
+//@             vm.InternalInputsValid[k] == vm.InternalOutputsValid[vm.Bmach.Links[k]]
+//@   loop 12: modifies vm.Outputs_regs[*], vm.OutputsValid[*]
+//@   loop 13: modifies vm.InternalInputsRecv[*]
+//@   loop 14: modifies dataRecv[*]
+//@   loop 14: invariant keys1: forall j int :: haskey(dataRecv, j) ==> fedBy(vm, j, i)
+//@   loop 14: invariant keys3: forall j int :: haskey(dataRecv, j) ==> j != -1
+//@   loop 14: invariant keys2: forall k int :: 0 <= k && k < i && vm.Bmach.Links[k] != -1 ==> haskey(dataRecv, vm.Bmach.Links[k])
+//@   loop 14: invariant vals1: forall j int, k int :: haskey(dataRecv, j) && dataRecv[j] && 0 <= k && k < i && vm.Bmach.Links[k] == j ==> vm.InternalInputsRecv[k]
+//@   loop 14: invariant vals0: forall j int :: haskey(dataRecv, j) && !dataRecv[j] ==> (exists k int :: 0 <= k && k < i && vm.Bmach.Links[k] == j && !vm.InternalInputsRecv[k])
+//@   loop 15: modifies vm.InternalOutputsRecv[*]
+//@   loop 15: invariant done1: forall j int, k int :: 0 <= j && j < $i && vm.InternalOutputsRecv[j] && 0 <= k && k < len(vm.Bmach.Links) && vm.Bmach.Links[k] == j ==> vm.InternalInputsRecv[k]
+//@   loop 15: invariant done2: forall j int :: 0 <= j && j < $i && vm.InternalOutputsRecv[j] ==> fedBy(vm, j, len(vm.Bmach.Links))
+//@   loop 15: invariant done0: forall j int :: 0 <= j && j < $i && !vm.InternalOutputsRecv[j] ==>
+//@             (!fedBy(vm, j, len(vm.Bmach.Links)) || (exists k int :: 0 <= k && k < len(vm.Bmach.Links) && vm.Bmach.Links[k] == j && !vm.InternalInputsRecv[k]))
+//@   loop 16: modifies vm.InputsRecv[*]
+
+//@ func (vm *VM) DumpIO() string
+//@   trusted
+//@   pure
